@@ -25,8 +25,11 @@ CHECK = {
                      "ClusterVerif/Lemmas/C08Query.lean", "ClusterVerif/Lemmas/C08Total.lean", "ClusterVerif/Lemmas/C08Eq.lean",
                      "ClusterVerif/Model/C08Prod.lean", "ClusterVerif/Lemmas/C08Prod.lean", "ClusterVerif/Gen/C08Pb.lean",
                      "ClusterVerif/Gen/C08Prod.lean", "ClusterVerif/Model/C08Add.lean", "ClusterVerif/Lemmas/C08Add.lean",
-                     "ClusterVerif/Gen/C08Add.lean"],
-    "rule": "roundtrip: a record type (Pin 40%, PinOptions 10%, AddParams in its query form 10%, state dump 4%, the other 20 records uniformly) x one of the formats the system "
+                     "ClusterVerif/Gen/C08Add.lean", "ClusterVerif/Lemmas/C08AddDec.lean", "ClusterVerif/Model/C08Util.lean",
+                     "ClusterVerif/Lemmas/C08Util.lean"],
+    "rule": "roundtrip: 1/16 q cases (PinOptions.FromQuery on typed parameter sets), 1/8 aq cases (the real AddParamsFromQuery on typed parameter sets: pin-option parameters as in q, made acceptable in 3 of 4 cases; "
+            "each of the 14 add parameters absent 40% / a value ToQueryString writes / another accepted spelling (all twelve ParseBool spellings, +1, -0, 01, int64 boundaries, empty value, upper-case hash names) / "
+            "in a third of the cases an unacceptable one (tRUE, yes, 1_0, 0x1, overflow, unknown layout/format); keys shuffled, a repeated key in 1/6, an unknown key in 1/10; an accepted set is re-encoded and decoded again), else a record type (Pin 40%, PinOptions 10%, AddParams in its query form 10%, state dump 4%, the other 20 records uniformly) x one of the formats the system "
             "uses for it x a value drawn by a reflection-based generator with field-aware pools (all pin types, depths -1/0/1/2 and odd ones, "
             "0-4 allocations (elements may be the empty peer ID), references nil / defined / pointing to cid.Undef, cid.Undef in every CID field,  0-3 origins with and without /p2p/, metadata incl. empty key/value, reference/update CIDs of both CID versions, "
             "expiry zero/unix-zero/first-second/past/future/pre-epoch with and without nanoseconds and in three time zones, names needing "
@@ -34,7 +37,7 @@ CHECK = {
             "variant of the variant; wire: pbenc 25% (generated pins incl. invalid UTF-8 in name/metadata and nil origins -> real ProtoMarshal bytes vs the byte-level model, exact), "
             "pbdec 50% (real bytes with fields shuffled, duplicated, renumbered, retyped, unknown fields of all six wire types incl. nested groups, nested Options/map entries edited, "
             "and damaged: truncation, lengths past the end, huge lengths, overlong varints, stray groups, reserved wire types, number 0 / >2^29, invalid UTF-8; random bytes -> real "
-            "proto.Unmarshal + ProtoUnmarshal vs the model decoder), qesc 15%, qparse 10%; strings: named statuses, filters, a sweep of 0..8300, modes, types, parser words; decoders: byte/structure "
+            "proto.Unmarshal + ProtoUnmarshal vs the model decoder), qesc 15%, qparse 10%; strings: named statuses, filters, a sweep of 0..8300, modes, types, parser words, 3/23 peer-ID lists through api.PeersToStrings/StringsToPeers (empty IDs, base58 and CID text forms, junk); decoders: byte/structure "
             "mutations (bit flips, splices, truncation, length blow-ups, msgpack value replacement, JSON value replacement, query parameter "
             "injection, cross-record confusion) of valid encodings with byte-identical seeds, random bytes, empty input. One splitmix64 stream "
             "per case index. non-trivial = the input is well-formed (Spec.wfRt) resp. within the string form's domain; distinct by case line",
@@ -75,7 +78,10 @@ META = {
             "over a regenerated table of every producer site (mode/depth agreement, no Reference to cid.Undef, all shapes recognised). Round 8: the add endpoint's query form (api/add.go) field by field at the text level of the values (%t/ParseBool, %d/Atoi for all 64-bit ints, Values.Get, defaults, layout/format validation, "
             "CIDv0-needs-sha2-256 rule, raw-leaves default and the ORDER of the steps): ToQueryString -> AddParamsFromQuery is the identity on all accepted parameters and, with the pin options, the lossy projection with PinUpdate cleared; "
             "refutations for an empty chunker and for a reordered raw-leaves step; decide-theorems over the regenerated parameter table (every field written, read with the same key and a matching kind, defaulted, compared by Equals except Progress; "
-            "no unrecognised statement; rule order) and equality of that table with the one the model transcribes. (L3) every run drives the real "
+            "no unrecognised statement; rule order) and equality of that table with the one the model transcribes. Round 8b: the DECODER AddParamsFromQuery on ARBITRARY parameter sets - it depends on Values.Get of its fourteen keys only "
+            "(order, unknown keys, later values of a repeated key irrelevant), all absent or empty gives the defaults, ParseBool accepts exactly twelve spellings, Atoi refuses any underscore and only yields 64-bit values, everything accepted is well-formed and is a fixed point of "
+            "ToQueryString -> AddParamsFromQuery (decoded_reencodes for the model, all inputs); tied to the real function by typed `aq` cases (accepted sets are re-encoded and decoded again by the real code). api/util.go PeersToStrings/StringsToPeers: round trip = the list without empty IDs "
+            "(identity on defined IDs, full statement refuted), re-encoding of any decoded list is stable; tied by `str p2s/s2p` cases. (L3) every run drives the real "
             "encoders and decoders on all 23 record types x formats and compares, field by field with the harness's own dumper, against the model's "
             "prediction and against the property's comparison.",
     "note": "Decoder robustness of the library decoders is search only (mutated encodings + random bytes under recover; per-type distribution in the arm histogram); "
